@@ -8,12 +8,17 @@ WT=${SEED_WT:-/tmp/scratch/mut-$ID}; M=$WT/MUTATION; AS=${SEED_AS:-$X}
 export CARGO_NET_OFFLINE=true
 FEAT=""; grep -q verif_hooks $M/$X.demo.rs 2>/dev/null && FEAT="--features verif_hooks"
 cd $WT || exit 2
+if [ -f $M/$X.confirm ]; then
+  # confirmation already done (tools/seed_confirm.sh, same steps, run for several worktrees in parallel)
+  clean=$(sed -n 1p $M/$X.confirm); suite=$(sed -n 2p $M/$X.confirm); mutated=$(sed -n 3p $M/$X.confirm)
+else
 git checkout -q -- . ; rm -rf tests; mkdir -p tests; cp $M/$X.demo.rs tests/demo_x.rs
 clean=$(cargo test --offline $FEAT --test demo_x 2>&1 | grep -E "^test result" | head -1)
 git apply $M/$X.patch.diff || { echo "PATCH DOES NOT APPLY"; exit 2; }
 suite=$(cargo test --offline --lib 2>&1 | grep -E "^test result" | head -1)
 mutated=$(cargo test --offline $FEAT --test demo_x 2>&1 | grep -E "^test result" | head -1)
 git checkout -q -- . ; rm -rf tests
+fi
 echo "demo on clean tree : $clean"
 echo "suite with mutation: $suite"
 echo "demo with mutation : $mutated"
